@@ -11,7 +11,8 @@ from .. import vlib
 LEVEL = "model_checking"
 FAMILY = "interest"
 
-ACT_DEFAULTS = {"a": "", "p": "", "t": "", "v": False, "on": False, "subs": [], "fan": False, "size": 0, "held": False, "m": "", "n": 0}
+ACT_DEFAULTS = {"a": "", "p": "", "t": "", "v": False, "on": False, "subs": [], "fan": False, "size": 0, "held": False, "m": "", "n": 0,
+                "old": False}
 
 
 # ----------------------------------------------------------------------------- projection of step lines
@@ -23,7 +24,7 @@ def project_wire(line, cfg):
         return {"i": 0, "scn": line["scn"], "t": line["t"], "act": {"a": "reset"},
                 "cfg": {"topics": c["topics"], "peers": c["peers"], "queue": c.get("queue", 0), "router": c.get("router", ""), "class": c.get("class", "")}}
     a = dict(ACT_DEFAULTS)
-    for k in ("a", "p", "t", "v", "on", "size", "held", "m", "n"):
+    for k in ("a", "p", "t", "v", "on", "size", "held", "m", "n", "old"):
         if k in act:
             a[k] = act[k]
     a["subs"] = list(act.get("subs", []))
@@ -40,7 +41,7 @@ def project_wire(line, cfg):
             "anns": anns, "deliv": deliv, "wire": wire,
             "lp": {t: line["lp"].get(t, []) for t in cfg["topics"]}, "lp0": line.get("lp0", []), "gt": line.get("gt", []), "hconn": line.get("hconn", []),
             "bel": {t: st.get("topics", {}).get(t, []) for t in cfg["topics"]},
-            "res": line.get("res", []), "err": line.get("err", ""), "rdone": line.get("rdone", "")}
+            "res": line.get("res", []), "err": line.get("err", ""), "rdone": line.get("rdone", ""), "live": line.get("live", [])}
 
 
 def project_wire_file(path):
@@ -55,7 +56,7 @@ def project_wire_file(path):
 
 
 # ----------------------------------------------------------------------------- scenario generation (wire view)
-ALL_KINDS = ["subscribe", "cancel", "relay", "unrelay", "joinFan", "close", "gate", "hpeer", "release", "resetIn", "rstIn",
+ALL_KINDS = ["subscribe", "cancel", "cancelOld", "cancelAgain", "relay", "unrelay", "unrelayAgain", "closeBusy", "joinFan", "close", "gate", "hpeer", "release", "resetIn", "rstIn",
              "dupIn", "dupInSet", "down", "up", "rsub", "quiet", "bsub"]
 
 
@@ -221,6 +222,11 @@ def _gen_net(ctx, name, L, kinds, nodes=("A", "B"), topics=("T1",), linked=True,
     return got, g
 
 
+FORCED_NET_CANCEL_TWICE = [
+    {"a": "subscribe", "n": "A", "t": "T1"}, {"a": "subscribe", "n": "A", "t": "T1"}, {"a": "cancel", "n": "A", "t": "T1"},
+    {"a": "cancelAgain", "n": "A", "t": "T1"}, {"a": "quiet"}, {"a": "cancel", "n": "A", "t": "T1"}, {"a": "cancelAgain", "n": "A", "t": "T1"}, {"a": "quiet"}]
+
+
 def assemble_net(acts, router, nodes=("A", "B"), topics=("T1",), linked=True):
     out = []
     if linked:
@@ -236,17 +242,19 @@ def assemble_net(acts, router, nodes=("A", "B"), topics=("T1",), linked=True):
 # ----------------------------------------------------------------------------- model checking
 MC_BASE = {"Cap": 1, "MaxOps": 5, "MaxDrops": 2, "MaxResetOut": 1, "MaxResetIn": 1, "MaxDisc": 1, "MaxGate": 1, "MaxHold": 1,
            "MaxRemote": 2, "MaxRef": 2, "AllowFanout": False, "FixD12": True, "RetryRechecks": True, "RetryFanoutAware": True,
-           "ClosedOrdered": True, "DupClears": True, "MaxDup": 0}
+           "ClosedOrdered": True, "DupClears": True, "MaxDup": 0,
+           "AllowRepeat": True, "CancelIdempotent": True, "RelayCancelIdempotent": True}
 MC_INV = ["TypeOK", "P_C05_WireTruth", "P_C05_ListPeers", "P_C05_NoSpuriousAnnounce", "P_C05_Settles"]
 
 
-def mc_cfg(two_peers, **over):
+def mc_cfg(two_peers, handles=True, **over):
     c = {"p1": "p1", "T1": "T1", "T2": "T2", "Peers": "Peers <- MCPeers", "Topics": "Topics <- MCTopics"}
     if two_peers:
         c["p2"] = "p2"
     c.update(MC_BASE)
     c.update(over)
-    return vlib.cfg_text(constants=c, invariants=MC_INV, constraint="Bound", symmetry="Sym")
+    # HandlesMatch (the code's maps count exactly the live handles) is a sanity invariant of the repaired model only
+    return vlib.cfg_text(constants=c, invariants=MC_INV + (["HandlesMatch"] if handles else []), constraint="Bound", symmetry="Sym")
 
 
 def model_checking(ctx):
@@ -254,28 +262,33 @@ def model_checking(ctx):
     wire_side = dict(MaxResetIn=0, MaxRemote=0)                      # the wire does not depend on the inbound direction
     belief_side = dict(MaxOps=1, MaxDrops=0, MaxGate=0, MaxRemote=2, MaxDup=1)  # the belief does not depend on queues and retries
     jobs = [
-        ("mc-wire-1peer", "MCInterest1", mc_cfg(False, **wire_side), "ok", None, 900),
+        ("mc-wire-1peer", "MCInterest1", mc_cfg(False, AllowRepeat=False, **wire_side), "ok", None, 1200),
+        # repeated Cancel / relay-cancel calls, refused Topic.Close, fanout-only: every sequence of 5 API operations against the queue
+        ("mc-wire-1peer-repeats", "MCInterest1", mc_cfg(False, AllowFanout=True, MaxGate=0, MaxHold=0, MaxResetOut=0, MaxDisc=0, **wire_side), "ok", None, 900),
         ("mc-belief-2peers", "MCInterest", mc_cfg(True, **belief_side), "ok", None, 900),
-        ("mc-asfound-D12", "MCInterest", mc_cfg(True, FixD12=False, **belief_side), "fail", "P_C05_ListPeers", 600),
-        ("mc-prefix-D19-late-closedstream", "MCInterest", mc_cfg(True, ClosedOrdered=False, **belief_side), "fail", "P_C05_ListPeers", 600),
-        ("mc-seeded-replaced-stream-not-cleared", "MCInterest", mc_cfg(True, DupClears=False, **belief_side), "fail", "P_C05_ListPeers", 600),
-        ("mc-seeded-retry-no-recheck", "MCInterest1", mc_cfg(False, RetryRechecks=False, **wire_side), "fail", "P_C05_NoSpuriousAnnounce", 600),
-        ("mc-prefix-D20-retry-fanout", "MCInterest1", mc_cfg(False, AllowFanout=True, RetryFanoutAware=False, MaxOps=6, MaxDisc=0, MaxResetOut=0,
+        ("mc-asfound-D12", "MCInterest", mc_cfg(True, handles=False, FixD12=False, **belief_side), "fail", "P_C05_ListPeers", 600),
+        ("mc-prefix-D19-late-closedstream", "MCInterest", mc_cfg(True, handles=False, ClosedOrdered=False, **belief_side), "fail", "P_C05_ListPeers", 600),
+        ("mc-seeded-replaced-stream-not-cleared", "MCInterest", mc_cfg(True, handles=False, DupClears=False, **belief_side), "fail", "P_C05_ListPeers", 600),
+        ("mc-seeded-retry-no-recheck", "MCInterest1", mc_cfg(False, handles=False, RetryRechecks=False, AllowRepeat=False, **wire_side), "fail", "P_C05_NoSpuriousAnnounce", 600),
+        ("mc-prefix-D20-retry-fanout", "MCInterest1", mc_cfg(False, handles=False, AllowFanout=True, AllowRepeat=False, RetryFanoutAware=False, MaxOps=6, MaxDisc=0, MaxResetOut=0,
                                                           MaxGate=0, **wire_side), "fail", "P_C05_NoSpuriousAnnounce", 600),
+        ("mc-seeded-cancel-not-idempotent", "MCInterest1", mc_cfg(False, handles=False, CancelIdempotent=False, **wire_side), "fail", "P_C05_NoSpuriousAnnounce", 600),
+        ("mc-seeded-relaycancel-not-idempotent", "MCInterest1", mc_cfg(False, handles=False, RelayCancelIdempotent=False, **wire_side), "fail", "P_C05_NoSpuriousAnnounce", 600),
         ("mc-sub", "InterestSub", "MCInterestSub.cfg", "ok", None, 300),
         ("mc-sub-seeded", "InterestSub", "MCInterestSubBug.cfg", "fail", "P_C05_CancelledNext", 300),
     ]
     if ctx.thorough:
         jobs += [
-            ("mc-wire-2peers", "MCInterest", mc_cfg(True, MaxOps=4, MaxHold=0, **wire_side), "ok", None, 1500),
-            ("mc-wire-1peer-fanout", "MCInterest1", mc_cfg(False, AllowFanout=True, **wire_side), "ok", None, 1500),
+            ("mc-wire-2peers", "MCInterest", mc_cfg(True, MaxOps=4, MaxHold=0, AllowRepeat=False, **wire_side), "ok", None, 1500),
+            ("mc-wire-1peer-repeats-faults", "MCInterest1", mc_cfg(False, **wire_side), "ok", None, 1500),
+            ("mc-wire-1peer-fanout", "MCInterest1", mc_cfg(False, AllowFanout=True, AllowRepeat=False, **wire_side), "ok", None, 1500),
         ]
     res = {}
 
     def one(j):
         name, module, cfg, want, prop, to = j
-        return name, vlib.run_tlc(ctx, FAMILY, module, cfg, timeout=to, name=name, workers=3 if want == "ok" else 2)
-    with cf.ThreadPoolExecutor(max_workers=4 if not ctx.thorough else 5) as ex:
+        return name, vlib.run_tlc(ctx, FAMILY, module, cfg, timeout=to, name=name, workers=2)
+    with cf.ThreadPoolExecutor(max_workers=4) as ex:
         for name, r in ex.map(one, jobs):
             res[name] = r
     states = transitions = 0
@@ -283,7 +296,7 @@ def model_checking(ctx):
     for name, module, cfg, want, prop, to in jobs:
         r = res[name]
         if want == "ok":
-            vlib.require_mc_ok(ctx, r, name, allow_timeout=name in ("mc-wire-2peers", "mc-wire-1peer-fanout"))
+            vlib.require_mc_ok(ctx, r, name, allow_timeout=name in ("mc-wire-2peers", "mc-wire-1peer-fanout", "mc-wire-1peer-repeats-faults"))
             states += r.distinct
             transitions += r.generated
         else:
@@ -325,19 +338,32 @@ FORCED_DUP_INBOUND = [
     {"a": "peer", "p": "p2", "subs": ["T2"]}, {"a": "quiet"}]
 
 
+# idempotence of the cancel paths: a handle cancelled twice while exactly one sibling is live (no relay), the survivor then
+# cancelled (its reader must see the cancellation), a stale Cancel after a re-subscribe, a RelayCancelFunc called twice while
+# another reference is live, a refused Topic.Close followed by the cancels, Cancel again after a successful Close and re-join
+FORCED_CANCEL_TWICE = [
+    {"a": "subscribe", "t": "T1"}, {"a": "subscribe", "t": "T1"}, {"a": "cancel", "t": "T1", "old": True}, {"a": "cancelAgain", "t": "T1"},
+    {"a": "quiet"}, {"a": "cancel", "t": "T1"}, {"a": "cancelAgain", "t": "T1"}, {"a": "subscribe", "t": "T1"}, {"a": "cancelAgain", "t": "T1"},
+    {"a": "quiet"}, {"a": "relay", "t": "T2"}, {"a": "relay", "t": "T2"}, {"a": "unrelay", "t": "T2"}, {"a": "unrelayAgain", "t": "T2"},
+    {"a": "quiet"}, {"a": "closeTopic", "t": "T2"}, {"a": "unrelay", "t": "T2"}, {"a": "unrelayAgain", "t": "T2"}, {"a": "closeTopic", "t": "T1"},
+    {"a": "cancel", "t": "T1"}, {"a": "closeTopic", "t": "T1"}, {"a": "subscribe", "t": "T1"}, {"a": "cancelAgain", "t": "T1"}, {"a": "quiet"}]
+
+
 def wire_plan(ctx):
     """(class name, generator arguments, assemble arguments, quick sample, thorough sample)."""
     api = ["subscribe", "cancel", "relay", "unrelay"]
     one = dict(peers=("p1",), conn=("p1",))
     return [
         ("refcount", dict(L=5, kinds=api + ["quiet"]), {}, 220, 2000),
+        ("repeats", dict(L=5, kinds=["subscribe", "cancel", "cancelOld", "cancelAgain", "relay", "unrelay", "unrelayAgain", "close", "closeBusy", "quiet"]),
+         {}, 260, 1800),
         ("fanout", dict(L=5, kinds=["subscribe", "cancel", "relay", "joinFan", "close", "quiet"]), {}, 150, 1500),
         ("fanout-hello", dict(L=5, kinds=["subscribe", "cancel", "joinFan", "close", "down", "up", "resetIn", "quiet"], topics=("T2",), **one),
          dict(topics=("T2",), **one), 100, 1000),
-        ("fullqueue", dict(L=6 if ctx.thorough else 5, kinds=api + ["gate", "quiet"], **one), dict(one), 320, 3000),
+        ("fullqueue", dict(L=6 if ctx.thorough else 5, kinds=api + ["gate", "quiet"], **one), dict(one), 320, 2400),
         ("hellorace", dict(L=5, kinds=api + ["release", "quiet"], held=("p1",)), dict(held=("p1",)), 220, 2000),
         ("faults", dict(L=5 if ctx.thorough else 4, kinds=["subscribe", "cancel", "relay", "resetIn", "rstIn", "dupIn", "down", "up", "rsub", "quiet"],
-                        topics=("T1",), fan=(), **one), dict(topics=("T1",), **one), 330, 3500),
+                        topics=("T1",), fan=(), **one), dict(topics=("T1",), **one), 330, 2800),
         ("faults-2peers", dict(L=3, kinds=["subscribe", "cancel", "relay", "resetIn", "rstIn", "dupIn", "down", "up", "rsub", "quiet"], topics=("T1",), fan=()),
          dict(topics=("T1",)), 120, 1200),
         ("dupinbound", dict(L=4, kinds=["dupInSet", "dupIn", "rsub", "rstIn", "subscribe", "quiet"], max_fault=3, **one), dict(one), 150, 1500),
@@ -380,14 +406,15 @@ def build_wire_scenarios(ctx, rng):
         scns.append(assemble_wire(FORCED_INBOUND_FLIP, router=router, cls="forced-inbound-flip"))
         scns.append(assemble_wire(FORCED_HELLO_CONTENT, router=router, cls="forced-hello-content"))
         scns.append(assemble_wire(FORCED_DUP_INBOUND, router=router, cls="forced-dup-inbound"))
-    classes["forced"] = {"generated": 15, "replayed": 15, "exhaustive": True}
+        scns.append(assemble_wire(FORCED_CANCEL_TWICE, router=router, cls="forced-cancel-twice"))
+    classes["forced"] = {"generated": 18, "replayed": 18, "exhaustive": True}
     return scns, gen_states, gen_trans, classes
 
 
 def build_net_scenarios(ctx, rng):
     api = ["subscribe", "cancel", "relay", "unrelay"]
     plan = [
-        ("net2", dict(L=4, kinds=api + ["rst", "unlink", "link", "quiet"], nodes=("A", "B")), dict(nodes=("A", "B")), 150, 2000),
+        ("net2", dict(L=4, kinds=api + ["cancelAgain", "rst", "unlink", "link", "quiet"], nodes=("A", "B")), dict(nodes=("A", "B")), 170, 2000),
         ("net3", dict(L=4 if ctx.thorough else 3, kinds=["subscribe", "cancel", "relay", "rst", "unlink", "link", "quiet"], nodes=("A", "B", "C")), dict(nodes=("A", "B", "C")), 150, 2000),
         ("net2-2topics", dict(L=5 if ctx.thorough else 4, kinds=["subscribe", "cancel", "rst", "quiet"], nodes=("A", "B"), topics=("T1", "T2")),
          dict(nodes=("A", "B"), topics=("T1", "T2")), 90, 1000),
@@ -405,6 +432,9 @@ def build_net_scenarios(ctx, rng):
         classes[name] = {"generated": g.distinct, "replayed": len(got), "exhaustive": exhaustive}
         for i, acts in enumerate(got):
             scns.append(assemble_net(acts, ("gossipsub", "floodsub", "randomsub")[i % 3], **akw))
+    for router in ("gossipsub", "floodsub", "randomsub"):
+        scns.append(assemble_net(FORCED_NET_CANCEL_TWICE, router))
+    classes["forced"] = {"generated": 3, "replayed": 3, "exhaustive": True}
     return scns, gs, gt, classes
 
 
@@ -575,11 +605,15 @@ WIRE_OBLIGATIONS = {
     "duplicate inbound stream whose hello differs (subset, disjoint, superset)": ["dupInbound:subset", "dupInbound:disjoint", "dupInbound:superset"],
     "disconnect and reconnect": ["fault:down", "reconnect"],
     "Next after Cancel (buffered, and a reader blocked in Next)": ["nextAfterCancel", "readerCancelled"],
+    "a handle cancelled twice while exactly one sibling is live and no relay exists; also with no live handle": ["cancelAgain:oneLiveSiblingNoRelay", "cancelAgain:noneLive"],
+    "a RelayCancelFunc called twice while another reference is live": ["unrelayAgain:oneLiveRefNoSub"],
+    "several subscriptions cancelled oldest first; cancel after a refused Topic.Close": ["cancelOldestFirst", "closeRefused", "cancelAfterCloseRefused"],
     "quiescent lines judged": ["quiet"],
 }
 NET_OBLIGATIONS = {
     "stream reset of each direction and side": ["rst:out:local", "rst:out:remote", "rst:in:local", "rst:in:remote"],
     "link / unlink": ["link", "unlink"],
+    "a handle cancelled twice while exactly one sibling is live (real nodes)": ["cancelAgain:oneLiveSiblingNoRelay"],
     "quiescent lines with a non-empty expected peer list": ["quietNonEmpty"],
 }
 
